@@ -669,7 +669,22 @@ func renderTL2Comb(b *strings.Builder, s []mComb, ci int, tag uint32, has bool) 
 		b.WriteString(" " + f.N + ":" + tl2Type(f.K))
 	}
 	if c.Kind == "func" {
-		b.WriteString(" => int32")
+		switch c.Res.K {
+		case "bool":
+			b.WriteString(" => bool")
+		case "vecint":
+			b.WriteString(" => []int32")
+		case "none":
+			b.WriteString(" => ")
+		case "ref":
+			if c.Res.A >= 1 && c.Res.A <= len(s) {
+				b.WriteString(" => " + s[c.Res.A-1].ctorName())
+			} else {
+				b.WriteString(" => int32")
+			}
+		default:
+			b.WriteString(" => int32")
+		}
 	}
 	b.WriteString(";\n")
 }
